@@ -16,8 +16,9 @@ Rec == ndJsonDeserialize(IOEnv.TRACE)
 Threads == 0..31
 Keys == 0..59                 \* table * 30 + depth
 MaxCalls == 1000000
-Torn == FALSE
+Torn == FALSE                  \* a torn object is never an acceptable explanation of a response
 UseOnce == TRUE
+FastPath == FALSE              \* the repaired code: no read of the slot before the Once
 VARIABLES slot, once, built, pc, arg, mine, ret, calls, l, addr
 L == INSTANCE Lazy
 tvars == <<slot, once, built, pc, arg, mine, ret, calls, l, addr>>
